@@ -33,13 +33,13 @@ def gen_cases(tier, seed):
     rng = np.random.default_rng(seed + 707)
     q = tier == "quick"
     cases = []
-    kinds = ["ode", "statio2", "nonstatio1", "sys_ode"]
+    kinds = ["ode", "statio2", "nonstatio1", "sys_ode", "spinn1", "hyper"]
     opts = ["sgd", "adam", "chain"]
     auxs = ["none", "param", "obs", "both"]
     trk = ["none", "theta", "nn_leaf"]
     N = 32 if q else 260
     for k in range(N):
-        kind = kinds[k % 4]
+        kind = kinds[k % 4] if k % 8 < 6 else kinds[4 + k % 2]
         b = int(rng.integers(1, 5))
         n = b * int(rng.integers(2, 4)) if k % 2 == 0 else b * int(rng.integers(2, 4)) + int(rng.integers(1, b + 1)) % max(b, 1)
         n = max(n, b + 1)
@@ -53,6 +53,11 @@ def gen_cases(tier, seed):
             prog["aux"] = "obs" if prog["aux"] == "both" else "none"
         if kind == "sys_ode" and prog["tracked"] == "nn_leaf":
             prog["tracked"] = "theta"
+        if kind in ("spinn1", "hyper"):
+            prog["aux"] = "none"  # the hyper program brings its own parameter generator
+            prog["tracked"] = "theta" if prog["tracked"] != "none" else "none"
+            prog["b"] = max(prog["b"], 2)
+            prog["n"] = max(prog["n"], prog["b"] + 1)
         prog["n_iter"] = 2 * epoch + int(rng.integers(1, 4))
         # the non-compiled branch of solve (Python while loop) is taken when an observation-batch sharding is given
         prog["sharding"] = bool(prog["aux"] in ("obs", "both") and k % 3 == 0)
